@@ -9,12 +9,14 @@ from batchie import retrospective as R
 
 def make(rnd, order):
     n = rnd.randrange(2, 14)
-    plates = ["p%d" % rnd.randrange(4) for _ in range(n)]
+    # names of very different widths (numpy string arrays are fixed-width: a careless preallocation truncates the longer ones)
+    PL = ["p0", "initial_plate_2021_03_14_batch_A", "initial_plate_2021_03_14_batch_B", "q"] if rnd.random() < 0.5 else ["p0", "p1", "p2", "p3"]
+    plates = [PL[rnd.randrange(4)] for _ in range(n)]
     obs_by = {p: rnd.random() < 0.4 for p in set(plates)}
     rows = []
     for k in range(n):
         ctl = rnd.random() < 0.25
-        rows.append((plates[k], obs_by[plates[k]], "s%d" % rnd.randrange(3), rnd.choice("abc"), "control" if ctl else rnd.choice("abc"), 1.0, 0.0 if ctl else float(rnd.randrange(1, 3)), round(rnd.uniform(0.1, 1), 6)))
+        rows.append((plates[k], obs_by[plates[k]], ["s0", "s1", "a-sample-with-a-rather-long-name"][rnd.randrange(3)], rnd.choice("abc"), "control" if ctl else rnd.choice("abc"), 1.0, 0.0 if ctl else float(rnd.randrange(1, 3)), round(rnd.uniform(0.1, 1), 6)))
     if rnd.random() < 0.2: rows.append((plates[0], obs_by[plates[0]], "s0", "control", "control", 0.0, 0.0, 0.5))
     if order == "obs_first": rows.sort(key=lambda r: not r[1])
     elif order == "obs_last": rows.sort(key=lambda r: r[1])
